@@ -323,6 +323,9 @@ fn plus<T: std::fmt::Display>(xs: &[T]) -> String {
     }
 }
 
+/// see `sig_map`
+static EMPTY_ZERO: std::sync::atomic::AtomicBool = std::sync::atomic::AtomicBool::new(false);
+
 struct Sim {
     e: Env,
     acct: Address,
@@ -522,7 +525,7 @@ impl Sim {
                     "v{}.{}.{}",
                     self.n_addr(v, &self.vers).map(|i| i.to_string()).unwrap_or("?".into()),
                     if key.len() == 1 { key[0].to_string() } else { "?".into() },
-                    if sig.len() == 1 { sig[0].to_string() } else { "?".into() }
+                    if sig.len() == 1 { sig[0].to_string() } else if sig.is_empty() { "0".into() } else { "?".into() }
                 )),
                 Ev::Can { p, ctx, signers, rule, acct } | Ev::Enforce { p, ctx, signers, rule, acct } => {
                     let tag = if matches!(ev, Ev::Can { .. }) { "c" } else { "e" };
@@ -688,13 +691,20 @@ impl Sim {
     fn sig_map(&self, sigs: &[(Sg, u8)]) -> (Map<Signer, Bytes>, Vec<(Sg, u8)>) {
         let mut m: Map<Signer, Bytes> = Map::new(&self.e);
         for (s, g) in sigs {
-            m.set(self.signer(*s), Bytes::from_array(&self.e, &[*g]));
+            // a refusing signature (byte 0) is presented as EMPTY signature bytes in every other sequence: to the mock
+            // verifier (and to the model) the two are the same refusal; an authenticate that does not even call the
+            // verifier for an empty signature is not (seed C03-r11-1)
+            if *g == 0 && EMPTY_ZERO.load(std::sync::atomic::Ordering::Relaxed) {
+                m.set(self.signer(*s), Bytes::new(&self.e));
+            } else {
+                m.set(self.signer(*s), Bytes::from_array(&self.e, &[*g]));
+            }
         }
         let mut ordered = vec![];
         for (k, val) in m.iter() {
             let ps = psigner(&k);
             let sg = self.sg_of(&ps).expect("signer of the universe");
-            ordered.push((sg, val.get(0).unwrap()));
+            ordered.push((sg, val.get(0).unwrap_or(0)));
         }
         (m, ordered)
     }
@@ -1023,6 +1033,7 @@ fn gen_seq(rng: &mut Rng, t: &mut Trace, k: u64, seed: u64, len: u64) {
         Some(s) => s,
         None => return,
     };
+    EMPTY_ZERO.store(k % 2 == 1, std::sync::atomic::Ordering::Relaxed);
     t.seq(&format!("rand k={} seed={} start={} s0={} p0={}", k, seed, start, plus(&s0), plus(&p0)));
     let mut g = Gen { rules: vec![] };
     g.refresh(&s);
@@ -1288,6 +1299,7 @@ fn directed(t: &mut Trace) {
     use Sg::*;
     // precedence: newest first, specific before default; expiry boundary
     let mut s = Sim::new(100, &[D(0)], &[]).unwrap();
+    EMPTY_ZERO.store(true, std::sync::atomic::Ordering::Relaxed);
     t.seq("directed precedence+expiry start=100 s0=d0 p0=-");
     s.check(t, &[(D(0), 1)], &[0], &[C(0, 0)]);
     s.check(t, &[(D(0), 1)], &[], &[C(0, 0)]);
